@@ -487,12 +487,8 @@ func fileFlush(L *LState) int {
 }
 
 func fileLinesIter(L *LState) int {
-	var file *lFile
-	if ud, ok := L.Get(1).(*LUserData); ok {
-		file = ud.Value.(*lFile)
-	} else {
-		file = L.Get(UpvalueIndex(2)).(*LUserData).Value.(*lFile)
-	}
+	// the file is the iterator's upvalue; arguments are ignored as in Lua 5.1
+	file := L.Get(UpvalueIndex(2)).(*LUserData).Value.(*lFile)
 	buf, err, iseof := readBufioLine(file.reader)
 	if iseof {
 		L.Push(LNil)
